@@ -518,7 +518,9 @@ class VectorContainer:
     def copy(self) -> 'VectorContainer':
         """Return a copy of the current object."""
         copied = self.__class__(span=copy.deepcopy(self.__dict__['span']))
-        copied.__dict__.update({k: copy.deepcopy(v) for k, v in self.__dict__.items()})
+        # One deep copy (one memo) for the whole `__dict__`, so that an object
+        # stored under two attributes is still one object in the copy
+        copied.__dict__.update(copy.deepcopy(self.__dict__))
         return copied
 
     __copy__ = copy
